@@ -145,7 +145,7 @@ class Driver:
             self.end(("reply", rid, 0))
         return True
 
-    def confirm(self, dst, tag, ok, hi=0):
+    def confirm(self, dst, tag, ok, hi=0, mtype=0):
         """messageSentHandler as the NCP sends it: the callback FRAME (independent byte-level encoder, layouts from the
         EZSP reference: pre-v14 one-byte tag and status after it, v14 status first and a two-byte tag) through the
         real frame_received; `hi` is the upper byte of the v14 tag (a confirmation for another message whose tag
@@ -161,9 +161,9 @@ class Driver:
         else:
             hdr = bytes([seq, 0x90, 0x01, 0x3F, 0x00])
         if v >= 14:
-            body = struct.pack("<IBH", 0 if ok else 0x0C02, 0, dst) + aps + struct.pack("<H", (tag & 0xFF) | (hi << 8)) + b"\x00"
+            body = struct.pack("<IBH", 0 if ok else 0x0C02, mtype, dst) + aps + struct.pack("<H", (tag & 0xFF) | (hi << 8)) + b"\x00"
         else:
-            body = struct.pack("<BH", 0, dst) + aps + bytes([tag & 0xFF, 0x00 if ok else 0x66]) + b"\x00"
+            body = struct.pack("<BH", mtype, dst) + aps + bytes([tag & 0xFF, 0x00 if ok else 0x66]) + b"\x00"
         self.ez.frame_received(hdr + body)
         self.loop.settle()
         eff_tag = (tag & 0xFF) | ((hi << 8) if v >= 14 else 0)
@@ -254,7 +254,11 @@ def run_script(version, script):
                     d.confirm(0x7777, 0x42, op[2])
                 else:
                     e = sends[op[1] % len(sends)]
-                    if op[3] == 3:
+                    if op[3] in (4, 5):
+                        # a confirmation of a message sent via the address table (4) / a binding (5): its "destination" is a
+                        # table index; bellows sends direct messages only, so it is nobody's confirmation even with a pending tag
+                        d.confirm(3, e[4], op[2], mtype=1 if op[3] == 4 else 2)
+                    elif op[3] == 3:
                         # same destination, same low tag byte, another upper byte: a different message on v14 (16-bit tags);
                         # before v14 the tag has one byte and this IS the request's own confirmation
                         d.confirm(e[3], e[4], op[2], hi=1)
@@ -312,6 +316,10 @@ class Check(PropertyCheck):
                 [("send", "unicast", 0x1000, False, False), ("reply", 0), ("confirm", 0, 1, 1), ("confirm", 0, 1, 2),
                  ("confirm", "foreign", 1, 0), ("timer",)],
                 [("send", "unicast", 0x1000, False, False), ("reply", 0), ("confirm", 0, 1, 0), ("confirm", 0, 1, 0)],
+                [("send", "unicast", 0x1000, False, False), ("reply", 0), ("confirm", 0, 1, 4), ("confirm", 0, 0, 0)],
+                [("send", "unicast", 0x1000, False, False), ("reply", 0), ("confirm", 0, 1, 5), ("timer",)],
+                [("send", "unicast", 0x1000, False, False), ("send", "unicast", 0x1001, False, False), ("reply", 0), ("reply", 0),
+                 ("confirm", 1, 1, 4), ("confirm", 0, 1, 0), ("confirm", 1, 0, 0)],
                 [("send", "unicast", 0x1000, False, False), ("reply", 2, 0)],
                 [("send", "unicast", 0x1000, False, False), ("reply", 2, 1)],
                 [("send", "unicast", 0x1000, False, False), ("reply", 2, 2)],
@@ -361,7 +369,7 @@ class Check(PropertyCheck):
                     elif x < 0.6:
                         s.append(("burst", rng.choice([0, 0, 1, 2]), rng.choice([1, 1, 0])))
                     elif x < 0.82:
-                        s.append(("confirm", rng.choice([0, 1, 2, "foreign"]), rng.choice([1, 1, 0]), rng.choice([0, 0, 0, 1, 2, 3])))
+                        s.append(("confirm", rng.choice([0, 1, 2, "foreign"]), rng.choice([1, 1, 0]), rng.choice([0, 0, 0, 1, 2, 3, 4, 5])))
                     elif x < 0.94:
                         s.append(("timer",))
                     else:
